@@ -47,6 +47,8 @@ def normalize(case, segments, tid):
         started = False
         for e in seg["events"]:
             n = e.get("ev", "")
+            if not n.startswith("md."):
+                continue  # hooks of other subsystems (scf.*, sp2.*) are not part of the run-loop trace
             if n == "md.init":
                 started = True
                 ev.append({"name": "init", "offset": int(e["offset"]), "cur": _cur(e, problems)})
@@ -83,6 +85,8 @@ def normalize(case, segments, tid):
         obs = seg["obs"]
         o = obs["mols"][first]
         h5 = o["h5"]
+        if h5.get("absent") and not any(int(case["cad"].get(s, 0)) for s in STREAMS):
+            h5 = {"ok": True, "rows": {}}  # no HDF5 stream requested: no file is the expected state
         rec = {
             "name": "observe",
             "h5ok": bool(h5.get("ok")),
